@@ -57,15 +57,15 @@ type Config struct {
 	Replicas    int    `json:"replicas"`
 	GenesisUnix int64  `json:"genesis_unix"`
 
-	NoBaseFee     bool   `json:"no_base_fee"`
-	BaseFee       string `json:"base_fee"`
-	MinGasPrice   string `json:"min_gas_price"` // decimal string
-	MinGasMult    string `json:"min_gas_mult"`  // decimal string
-	Elasticity    uint32 `json:"elasticity"`
-	ChangeDenom   uint32 `json:"change_denom"`
-	BlockMaxGas   int64  `json:"block_max_gas"`
-	FeeEnableHeight int64 `json:"fee_enable_height,omitempty"`
-	UnbondingSecs int64  `json:"unbonding_secs"`
+	NoBaseFee       bool   `json:"no_base_fee"`
+	BaseFee         string `json:"base_fee"`
+	MinGasPrice     string `json:"min_gas_price"` // decimal string
+	MinGasMult      string `json:"min_gas_mult"`  // decimal string
+	Elasticity      uint32 `json:"elasticity"`
+	ChangeDenom     uint32 `json:"change_denom"`
+	BlockMaxGas     int64  `json:"block_max_gas"`
+	FeeEnableHeight int64  `json:"fee_enable_height,omitempty"`
+	UnbondingSecs   int64  `json:"unbonding_secs"`
 
 	SlashWindow      int64  `json:"slash_window"`
 	MinSigned        string `json:"min_signed"`
@@ -200,14 +200,14 @@ type World struct {
 	pendVals map[string]int64 // set after that (updates of EndBlock(H) act at H+2)
 	valByPub map[string]*Validator
 
-	BlockTxs   [][]byte // txs delivered in the open block (for mid-block restarts)
-	BlockRes   []TxResult
-	BlockReq   abci.RequestBeginBlock
-	LastResult TxResult
-	InBlock    bool
-	LastEndEvents []abci.Event // events of the last EndBlock (replica 0)
-	BlockLog   []LoggedBlock // block store: index i holds height i+1
-	KeepLog    bool
+	BlockTxs      [][]byte // txs delivered in the open block (for mid-block restarts)
+	BlockRes      []TxResult
+	BlockReq      abci.RequestBeginBlock
+	LastResult    TxResult
+	InBlock       bool
+	LastEndEvents []abci.Event  // events of the last EndBlock (replica 0)
+	BlockLog      []LoggedBlock // block store: index i holds height i+1
+	KeepLog       bool
 	// OnBoundary is called between Commit of block H and BeginBlock of H+1.
 	OnBoundary func(w *World) *Violation
 	genesis    []byte
